@@ -595,9 +595,62 @@ def small_scope(tier):
     return out
 
 
+# Deterministic streams, run on every quick run whatever the seed: (1) hand-written boundary cases, (2) a FIXED-seed
+# stream of generated cases that by itself satisfies every requirement of sanity() (so no requirement depends on the
+# run's random draws).
+BOUNDARIES = [
+    "a big-integer sequence column whose only non-missing cells are removed by the history (colselect / retry): the "
+    "frame finally materialized has no usable value -> NaN defaults (found by the thorough tier: the int_mean_ok "
+    "term compared an empty column with the exact-mean branch)",
+    "a big-integer numerical / sequence column whose total passes 2^63, with and without a history",
+    "FIXED_STREAM_SEED stream: every stype, column kind, backing, scale, split kind, constructor / call form, history "
+    "kind and target kind that sanity() requires",
+]
+FIXED_STREAM_SEED = 20260930
+FIXED_STREAM_SIZE = 320
+
+
+def boundary_cases():
+    big = [2 ** 62, 2 ** 62 - 1024, 2 ** 62 - 4096]
+    out = []
+
+    def seqcol(cells):
+        c = base_col("alpha", "sequence_numerical")
+        c.update(cells=cells, nan_kind="none", gen="usable", scale=0, bigint=True)
+        return c
+
+    def numcol(name, cells, **kw):
+        c = base_col(name, "numerical")
+        c.update(dtype="float", cells=cells, gen="usable", scale=0)
+        c.update(kw)
+        return c
+    ctor = {"split": None, "sep_form": "dict", "fmt_form": "dict", "cfg_form": "dict", "direct_form": "keyword",
+            "device": "default", "path": False}
+    x4 = numcol("beta", [1.0, 2.0, 3.0, 4.0])
+    dirty = numcol("gamma", [5.0, 6.0, 7.0, 8.0])
+    # the only usable cell is in a row the history removes
+    out.append({"n": 4, "index": "range", "cols": [seqcol([None, big, None, None]), x4], "target": None,
+                "col_order": ["alpha", "beta"], "ctor": dict(ctor),
+                "history": {"kind": "colselect", "cols": ["alpha"], "drop_rows": [1, 2]}})
+    out.append({"n": 4, "index": "offset", "cols": [seqcol([None, None, big, None]), x4, dirty], "target": None,
+                "col_order": ["alpha", "beta", "gamma"], "ctor": dict(ctor),
+                "history": {"kind": "retry", "dirty": "gamma", "drop_rows": [2]}})
+    # the usable cells survive: totals beyond 2^63
+    out.append({"n": 4, "index": "range", "cols": [seqcol([big, None, big[:2], [big[0]]]), x4], "target": None,
+                "col_order": ["alpha", "beta"], "ctor": dict(ctor),
+                "history": {"kind": "colselect", "cols": ["beta"], "drop_rows": [1]}})
+    out.append({"n": 4, "index": "range", "cols": [seqcol([big, None, big[:2], [big[0]]]), x4], "target": None,
+                "col_order": ["alpha", "beta"], "ctor": dict(ctor)})
+    out.append({"n": 4, "index": "dup", "target": None, "col_order": ["delta", "beta"], "ctor": dict(ctor),
+                "cols": [numcol("delta", [float(v) for v in big + [2 ** 62 - 8192]], np_dtype="int64", bigint=True), x4]})
+    return out
+
+
 def generate(rng, tier):
-    n = 700 if tier == "quick" else 12000
-    cases = [gen_case(rng, tier) for _ in range(n)]
+    n = 380 if tier == "quick" else 12000
+    fixed_rng = C.Rng(FIXED_STREAM_SEED)
+    cases = boundary_cases() + [gen_case(fixed_rng, tier) for _ in range(FIXED_STREAM_SIZE)]
+    cases += [gen_case(rng, tier) for _ in range(n)]
     if tier == "thorough":
         cases += small_scope(tier)
     return cases
